@@ -105,6 +105,10 @@ func shapeSubQueries(e qx.Expr, r *core.Rand) qx.Expr {
 		if x.L.Sub != nil {
 			x.L.Sub = shape(x.L.Sub)
 		}
+		if (x.L.Kind == "count" || x.L.Kind == "anyOf" || x.L.Kind == "allOf") && r.P(0.25) {
+			// a null test of a set function (over a set, a dotted set or a sub-query): what it references is referenced all the same
+			x.Op, x.R = core.Pick(r, []string{"=", "!="}), []qx.Lit{qx.LNull()}
+		}
 		return x
 	case qx.IsEmpty:
 		if x.Sub != nil {
